@@ -14,6 +14,7 @@ FlowIRConcrete.  The transition function is the code under check; nothing of it 
 * Failing observations are grouped by class; the two shortest histories of each class are handed to the runner.
 """
 import hashlib
+import json
 import os
 import pickle
 
@@ -25,7 +26,10 @@ EXHAUSTIVE = True
 PLATFORMS = ('default', 'P')
 DEPTH = {'quick': 3, 'thorough': 5}
 # thorough additionally explores the three documents with the *other* active platform to this depth
-DEPTH_SWAPPED = {'quick': 0, 'thorough': 4}
+DEPTH_SWAPPED = {'quick': 0, 'thorough': 3}
+# the alphabet extended with ==-equal values of a different type is explored to this depth
+DEPTH_TYPED = {'quick': 2, 'thorough': 3}
+FULL_ORACLE_DEPTH = 2
 
 RULE = (
     'BFS over ALL histories (length <= 3 quick, <= 5 thorough) of the per-document alphabet of 24-25 real operations: '
@@ -80,33 +84,39 @@ MC_EXPLANATION = (
 def _specs():
     d0 = {
         'platforms': ['default', 'P'],
-        'variables': {'default': {'global': {'g': 'g0', 'v': 'gv'}, 'stages': {0: {'s': 's0'}, 1: {'s': 's1'}}},
-                      'P': {'global': {'g': 'pg'}, 'stages': {0: {'s': 'ps0'}}}},
+        'variables': {'default': {'global': {'g': 'g0', 'v': 'gv', 'n': 2, 'pn': 5},
+                                  'stages': {0: {'s': 's0', 'm': 0, 'pm': 6}, 1: {'s': 's1', 'm': 0}}},
+                      'P': {'global': {'g': 'pg', 'pn': 1}, 'stages': {0: {'s': 'ps0', 'pm': 3}}}},
         'components': [
-            {'name': 'A', 'stage': 0, 'command': {'executable': 'echo', 'arguments': '%(g)s %(s)s %(v)s'},
-             'variables': {'v': 'c0v'}, 'resourceRequest': {'numberThreads': 2}},
-            {'name': 'A', 'stage': 1, 'command': {'executable': 'echo', 'arguments': '%(g)s-%(s)s-%(v)s'},
-             'variables': {'v': 'c1v'}, 'resourceRequest': {'numberThreads': 3}},
+            {'name': 'A', 'stage': 0,
+             'command': {'executable': 'echo', 'arguments': '%(g)s %(s)s %(v)s %(n)s %(pn)s %(m)s %(pm)s %(k)s'},
+             'variables': {'v': 'c0v', 'k': 1}, 'resourceRequest': {'numberThreads': 2}},
+            {'name': 'A', 'stage': 1,
+             'command': {'executable': 'echo', 'arguments': '%(g)s-%(s)s-%(v)s-%(n)s-%(pn)s-%(m)s-%(k)s'},
+             'variables': {'v': 'c1v', 'k': 1}, 'resourceRequest': {'numberThreads': 3}},
         ]}
     d1 = {
         'platforms': ['default', 'P'],
         'blueprint': {'default': {'global': {'command': {'environment': 'none'}}},
                       'P': {'global': {'resourceRequest': {'numberThreads': 4}},
                             'stages': {0: {'command': {'expandArguments': 'none'}}}}},
-        'variables': {'default': {'global': {'g': 'g0'}, 'stages': {0: {'s': 's0'}}},
-                      'P': {'global': {'g': 'pg', 'v': 'pv'}, 'stages': {0: {'s': 'ps0'}}}},
+        'variables': {'default': {'global': {'g': 'g0', 'n': 2, 'pn': 5}, 'stages': {0: {'s': 's0', 'm': 0, 'pm': 6}}},
+                      'P': {'global': {'g': 'pg', 'v': 'pv', 'pn': 1}, 'stages': {0: {'s': 'ps0', 'pm': 3}}}},
         'components': [
-            {'name': 'A', 'stage': 0, 'command': {'executable': 'echo', 'arguments': '%(g)s %(s)s %(v)s'},
-             'variables': {'v': 'c0v'}, 'resourceRequest': {'numberThreads': 2},
-             'override': {'P': {'command': {'arguments': 'over %(v)s %(g)s'}, 'variables': {'v': 'ov'}}}},
-            {'name': 'AB', 'stage': 0, 'command': {'executable': 'echo', 'arguments': '%(s)s %(v)s'},
-             'variables': {'v': 'c1v'}},
+            {'name': 'A', 'stage': 0,
+             'command': {'executable': 'echo', 'arguments': '%(g)s %(s)s %(v)s %(n)s %(pn)s %(m)s %(pm)s %(k)s'},
+             'variables': {'v': 'c0v', 'k': 1}, 'resourceRequest': {'numberThreads': 2},
+             'override': {'P': {'command': {'arguments': 'over %(v)s %(g)s %(n)s %(pn)s %(m)s %(pm)s %(k)s'},
+                                'variables': {'v': 'ov'}}}},
+            {'name': 'AB', 'stage': 0, 'command': {'executable': 'echo', 'arguments': '%(s)s %(v)s %(n)s %(pm)s %(k)s'},
+             'variables': {'v': 'c1v', 'k': 1}},
         ]}
     d2 = {
+        'variables': {'default': {'global': {'n': 2}, 'stages': {0: {'m': 0}}}},
         'components': [
             {'name': 'x', 'stage': 0, 'command': {'executable': 'echo', 'arguments': '%(g)s lit'}},
-            {'name': 'x.y', 'stage': 0, 'command': {'executable': 'echo', 'arguments': 'lit %(v)s'},
-             'variables': {'v': 'xv'}},
+            {'name': 'x.y', 'stage': 0, 'command': {'executable': 'echo', 'arguments': 'lit %(v)s %(n)s %(m)s %(k)s'},
+             'variables': {'v': 'xv', 'k': 1}},
         ]}
     specs = [
         {'name': 'layered', 'doc': d0, 'active': 'default', 'primitive': True,
@@ -137,8 +147,10 @@ def spec_names(tier):
     return core, (swapped if DEPTH_SWAPPED[tier] > 0 else [])
 
 
-def ops_for(spec):
-    """The alphabet (JSON-able lists), in a fixed order."""
+def ops_for(spec, typed=False):
+    """The alphabet (JSON-able lists), in a fixed order. typed=True appends, for every setter of a variable, a variant
+    that writes a value which compares == to the value the initial document holds but is a different value in the
+    description (2 -> 2.0, 1 -> True, 0 -> False): an update guarded by `old != new` must still be visible."""
     ops = []
     for i in (0, 1):
         ops.append(['setvar', i])
@@ -155,7 +167,9 @@ def ops_for(spec):
     for st in stages:
         ops.append(['setstage', st])
     ops.append(['setpglobal', 'P'])
+    ops.append(['setpglobal', 'default'])
     ops.append(['setpstage', stages[0], 'P'])
+    ops.append(['setpstage', stages[0], 'default'])
     ops.append(['add', 2])
     ops.append(['add', 1])
     for i in (0, 1):
@@ -165,6 +179,15 @@ def ops_for(spec):
     for i in (0, 1):
         for p in PLATFORMS:
             ops.append(['query', i, p])
+    if typed:
+        for i in (0, 1):
+            ops.append(['setvar', i, 'eq'])
+        ops.append(['setglobal', 'eq'])
+        ops.append(['setstage', stages[0], 'eq'])
+        for p in PLATFORMS:
+            ops.append(['setpglobal', p, 'eq'])
+        for p in PLATFORMS:
+            ops.append(['setpstage', stages[0], p, 'eq'])
     return ops
 
 
@@ -194,8 +217,12 @@ def apply_op(spec, conf, op):
     conc = conf.get_flowir_concrete(return_copy=False)
     kind = op[0]
     try:
+        eq = op[-1] == 'eq'
         if kind == 'setvar':
-            conf.setOptionForNode(_ref(spec['comps'][op[1]]), 'v', 'nv%d' % op[1])
+            if eq:
+                conf.setOptionForNode(_ref(spec['comps'][op[1]]), 'k', 1.0)            # document: k = 1
+            else:
+                conf.setOptionForNode(_ref(spec['comps'][op[1]]), 'v', 'nv%d' % op[1])
         elif kind == 'delvar':
             conf.removeOptionForNode(_ref(spec['comps'][op[1]]), 'v')
         elif kind == 'setarg':
@@ -205,13 +232,27 @@ def apply_op(spec, conf, op):
         elif kind == 'rmarg':
             conf.removeOptionForNode(_ref(spec['comps'][op[1]]), '#command.arguments')
         elif kind == 'setglobal':
-            conc.set_global_variable('g', 'ng')
+            if eq:
+                conc.set_global_variable('n', 2.0)                                      # document: n = 2
+            else:
+                conc.set_global_variable('g', 'ng')
         elif kind == 'setstage':
-            conc.set_stage_variable(op[1], 's', 'ns%d' % op[1])
+            if eq:
+                conc.set_stage_variable(op[1], 'm', False)                              # document: m = 0
+            else:
+                conc.set_stage_variable(op[1], 's', 'ns%d' % op[1])
         elif kind == 'setpglobal':
-            conc.set_platform_global_variable('g', 'npg', op[1])
+            if eq:
+                # document: default pn = 5, P pn = 1
+                conc.set_platform_global_variable('pn', 5.0 if op[1] == 'default' else True, op[1])
+            else:
+                conc.set_platform_global_variable('g', 'npg' if op[1] == 'P' else 'ndg', op[1])
         elif kind == 'setpstage':
-            conc.set_platform_stage_variable(op[1], 's', 'nps', op[2])
+            if eq:
+                # document: default pm = 6, P pm = 3
+                conc.set_platform_stage_variable(op[1], 'pm', 6.0 if op[2] == 'default' else 3.0, op[2])
+            else:
+                conc.set_platform_stage_variable(op[1], 's', 'nps' if op[2] == 'P' else 'nds', op[2])
         elif kind == 'add':
             conc.add_component(_component_desc(spec, op[1]))
         elif kind == 'update':
@@ -243,6 +284,15 @@ def canon_obj(o):
     return '%s:%r' % (type(o).__name__, o)
 
 
+def canon_fast(o):
+    """Same purpose as canon_obj (typed: 2, 2.0, True, "2" all differ; dict order ignored) through the C json encoder;
+    falls back to canon_obj for anything json cannot sort or encode."""
+    try:
+        return json.dumps(o, sort_keys=True, allow_nan=True, separators=(',', ':'))
+    except (TypeError, ValueError):
+        return canon_obj(o)
+
+
 def digest(text):
     return hashlib.sha1(text.encode('utf-8', 'backslashreplace')).hexdigest()[:20]
 
@@ -258,8 +308,8 @@ def state_key(conc):
     # real constructor produces for a replicated configuration depends on string hashing: fingerprint it as a set
     view_of = dict(raw)
     if isinstance(raw.get('components'), list):
-        view_of['components'] = sorted(canon_obj(c) for c in raw['components'])
-    dkey = digest(canon_obj(view_of))
+        view_of['components'] = sorted(canon_fast(c) for c in raw['components'])
+    dkey = digest(canon_fast(view_of))
     try:
         comps = conc._flowir['components']
         view = conc._component_dictionary
@@ -269,7 +319,7 @@ def state_key(conc):
         raise HarnessError('FlowIRConcrete internals changed, cannot fingerprint the look-up view: %r' % (e,))
     cache = []
     for label in cache_labels(conc):
-        cache.append('%s=%s' % (label, digest(canon_obj(conc._cache[label]))))
+        cache.append('%s=%s' % (label, digest(canon_fast(conc._cache[label]))))
     return digest('%s|%s|view:%s|%s' % (conc.active_platform, dkey, 'ok' if ok else 'diverged', ';'.join(cache))), dkey, raw
 
 
@@ -395,7 +445,10 @@ def diff(a, b, path='', out=None, limit=6):
                 diff(a[k], b[k], '%s.%s' % (path, k), out, limit)
             if len(out) >= limit:
                 break
-    elif a != b:
+    elif isinstance(a, list) and isinstance(b, list) and len(a) == len(b):
+        for i, (x, y) in enumerate(zip(a, b)):
+            diff(x, y, '%s[%d]' % (path, i), out, limit)
+    elif a != b or type(a) is not type(b):
         out.append('%s: live=%r scratch=%r' % (path, a, b))
     return out
 
@@ -422,7 +475,8 @@ def judge(col, sink, spec, history, raw, got, exp, pair, phase, was_cached):
     if exp[0] == 'unbuildable':
         col.outcome('pair:scratch-unbuildable:%s' % exp[1])
         return True
-    if got[0] == exp[0] and (got[1] == exp[1]):
+    if got[0] == exp[0] and got[1] == exp[1] and (got[0] != 'ok' or canon_fast(got[1]) == canon_fast(exp[1])):
+        # the second clause: 2 / 2.0 / True compare equal in python but are different values of a configuration
         return True
     cid, p = pair[0], pair[1]
     flavour = pair[2] if len(pair) > 2 else 'resolved'
@@ -493,6 +547,10 @@ def oracle(col, sink, spec, conf, history, raw, dkey):
     conc = conf.get_flowir_concrete(return_copy=False)
     exp = expected_for(spec, raw, dkey)
     labels = set(cache_labels(conc))
+    # The copy-leak rounds on entries the oracle itself has just filled and the cache-by-passing flavours exercise code
+    # paths that do not depend on how the state was reached: they run after histories of length <= FULL_ORACLE_DEPTH;
+    # entries that the HISTORY left in the cache get the copy-leak rounds at every depth.
+    full = len(history) <= FULL_ORACLE_DEPTH
     for cid, p in pairs_of(spec):
         was_cached = _label(p, cid) in labels
         e = exp[(cid, p)]
@@ -505,7 +563,7 @@ def oracle(col, sink, spec, conf, history, raw, dkey):
         col.outcome('pair:%s:%s' % ('equal' if got[0] == 'ok' else 'both-raise-' + got[1],
                                     'cached' if was_cached else 'uncached'))
         for phase in ('second', 'third'):
-            if got[0] != 'ok':
+            if got[0] != 'ok' or not (full or was_cached):
                 break
             scramble(got[1])
             got = _ask(conc, cid, p)
@@ -514,7 +572,7 @@ def oracle(col, sink, spec, conf, history, raw, dkey):
                 break
     # now that every cache entry that can exist is filled: the flavours that must by-pass the cache
     p = spec['active']
-    for cid in [tuple(c) for c in spec['comps']]:
+    for cid in ([tuple(c) for c in spec['comps']] if full else []):
         for fname, kw in FLAVOURS:
             e = exp[(cid, p, fname)]
             if e[0] == 'unbuildable':
@@ -529,6 +587,8 @@ def oracle(col, sink, spec, conf, history, raw, dkey):
     # the scrambled dicts must not have been wired into the description: what a from-scratch object answers for the
     # description as it is NOW must be what it answered before the queries (getters may add empty sections, which is
     # why descriptions are not compared literally)
+    if canon_fast(conc.raw()) == canon_fast(raw):
+        return
     _, dkey2, raw2 = state_key(conc)
     if dkey2 != dkey:
         col.outcome('description-touched-by-queries')
@@ -539,9 +599,16 @@ def oracle(col, sink, spec, conf, history, raw, dkey):
                 break
 
 
-def run_history(col, sink, spec, history):
+def run_history(col, sink, spec, history, judged=True):
     """Replays `history` on a fresh object; judges the last operation (when it is a query) and the final state with
-    the oracle. Returns the canonical key of the state reached (taken before the oracle perturbs the object)."""
+    the oracle. Returns the canonical key of the state reached (taken before the oracle perturbs the object).
+    judged=False only computes the key (used for histories another stratum of the search has judged already)."""
+    if not judged:
+        conf = fresh(spec)
+        for op in history:
+            apply_op(spec, conf, op)
+        col.count('transitions_of_the_typed_stratum_judged_in_the_core_stratum')
+        return state_key(conf.get_flowir_concrete(return_copy=False))[0]
     conf = fresh(spec)
     last = ('ok', None)
     pre_labels = ()
@@ -619,16 +686,20 @@ def _check_shells_untouched():
 
 
 def expand_worker(col, item, tier, seed):
-    lo, hi, outfile = item
+    lo, hi, outfile, typed = item
     found = {}
     sink = []
     for name, hist in _FRONTIER[lo:hi]:
         spec = SPECS[name]
-        ops = ops_for(spec)
+        ops = ops_for(spec, typed)
         history = [ops[i] for i in hist]
         for j, op in enumerate(ops):
-            key = run_history(col, sink, spec, history + [op])
-            col.transitions += 1
+            h = history + [op]
+            if typed and len(h) <= DEPTH[tier] and not any(o[-1] == 'eq' for o in h):
+                key = run_history(col, sink, spec, h, judged=False)     # the core stratum executes and judges it
+            else:
+                key = run_history(col, sink, spec, h)
+                col.transitions += 1
             sk = (name, key)
             if sk in _SEEN:
                 continue
@@ -642,7 +713,7 @@ def expand_worker(col, item, tier, seed):
         pickle.dump((found, kept, total), f, protocol=pickle.HIGHEST_PROTOCOL)
 
 
-def bfs(ctx, sink, names, depth, scratch, tag):
+def bfs(ctx, sink, names, depth, scratch, tag, typed=False):
     """Level-synchronous BFS. Returns (completed depth, total number of failing observations)."""
     global _FRONTIER, _SEEN
     _SEEN = set()
@@ -661,10 +732,10 @@ def bfs(ctx, sink, names, depth, scratch, tag):
         chunk = max(1, min(48, n // (ctx.jobs * 6) + 1))
         items = []
         for k, lo in enumerate(range(0, n, chunk)):
-            items.append((lo, min(n, lo + chunk), os.path.join(scratch, '%s-L%d-%d.pkl' % (tag, level, k))))
+            items.append((lo, min(n, lo + chunk), os.path.join(scratch, '%s-L%d-%d.pkl' % (tag, level, k)), typed))
         ctx.pmap('verif.props.c08', 'expand_worker', items)
         merged = {}
-        for _, _, path in items:
+        for _, _, path, _ in items:
             if not os.path.exists(path):
                 raise HarnessError('worker result %s is missing' % path)
             with open(path, 'rb') as f:
@@ -682,7 +753,7 @@ def bfs(ctx, sink, names, depth, scratch, tag):
         ctx.count('%s_new_states_depth_%d' % (tag, level), len(merged))
         if _FRONTIER:
             name, h = _FRONTIER[len(_FRONTIER) // 2]
-            ops = ops_for(SPECS[name])
+            ops = ops_for(SPECS[name], typed)
             ctx.sample({'init': name, 'history': [ops[i] for i in h]})
         if not _FRONTIER:
             break
@@ -705,6 +776,11 @@ def run(ctx):
             done2, nf = bfs(ctx, sink, swapped, DEPTH_SWAPPED[ctx.tier], d, 'swapped')
             total += nf
             ctx.count('completed_depth_swapped_platform', done2)
+        # the alphabet extended with the ==-equal / different-type values
+        done3, nf = bfs(ctx, sink, core, DEPTH_TYPED[ctx.tier], d, 'typed', typed=True)
+        total += nf
+        ctx.count('completed_depth_typed_values_alphabet', done3)
+        ctx.count('alphabet_size_typed_max', max(len(ops_for(SPECS[n], True)) for n in core))
     kept, _ = compact(sink)
     # one representative pair of cases per failure class is handed to the runner; the rest is only counted
     for f in sorted(kept, key=lambda f: (_fail_order(f), f['sig'])):
